@@ -360,25 +360,26 @@ func structZero(w *Worker, t types.Type) []Value {
 }
 
 func (w *Worker) onceFlag(o *Obj) *Obj {
-	k := w.kid(o, 0)
-	for !k.Leaf {
-		// atomic.Uint32{_ noCopy; v uint32}
-		k = w.kid(k, k.N-1)
-	}
-	if _, ok := k.V.(*term.Term); !ok {
-		// layout with noCopy first: search the integer field
-		for i := 0; i < o.N; i++ {
-			c := w.kid(o, i)
-			for !c.Leaf {
-				c = w.kid(c, c.N-1)
+	// find the first integer leaf (the "done" word) in declaration order
+	var find func(o *Obj) *Obj
+	find = func(o *Obj) *Obj {
+		if o.Leaf {
+			if t, ok := o.V.(*term.Term); ok && t.W > 0 {
+				return o
 			}
-			if _, ok := c.V.(*term.Term); ok {
-				return c
+			return nil
+		}
+		for i := 0; i < o.N; i++ {
+			if r := find(w.kid(o, i)); r != nil {
+				return r
 			}
 		}
-		panic(pathAbort{"unsupported", "sync.Once layout"})
+		return nil
 	}
-	return k
+	if r := find(o); r != nil {
+		return r
+	}
+	panic(pathAbort{"unsupported", "sync.Once layout"})
 }
 
 func (w *Worker) fmtStr(v Value) string { return w.concStr(v, "format string") }
